@@ -186,7 +186,7 @@ def evaluate(case, wd):
 def cases():
     return st.one_of(
         st.tuples(st.just("forms"), strategies.form_specs(P_FORMS)),
-        st.tuples(st.just("forms"), strategies.form_specs(P_FORMS)),
+        st.tuples(st.just("forms"), strategies.template_specs(P_FORMS)),
         st.tuples(st.just("small"), strategies.form_specs(P_SMALL)),
         st.tuples(st.just("small"), strategies.form_specs(P_SMALL)),
         st.tuples(st.just("diagonal"), strategies.form_specs(dict(P_SMALL, arities=[2], same_args=True))),
